@@ -46,12 +46,26 @@ CLAIMS = {
          "wt_traitcall_count, wt_constr_count — a dump that passes Wt has, at every call form, as many arguments as the callee annotation, "
          "the named declaration, the trait method signature or the constructor has parameters): a deterministic catalogue of every call "
          "form x declared count 0..3 x written count x position, each with an accepted twin, must be rejected by the typer; a model-free "
-         "count oracle runs on every real stage dump.",
-    design_ref="§5 C03, §C03 — as built",
+         "count oracle runs on every real stage dump. "
+         "Round 10 (Props/C03pres.lean) adds the PRESERVATION theorems for the pass models (tied to the Rust by C09/C08/C07/C06): "
+         "anf_preserves_wt / anf_file_preserves_wt (ANF keeps Wt.errs = [] and the type: typed-context invariant over the direct-style "
+         "reading of the CPS functions), anf_preserves_closed / anf_file_preserves_closed (closedFns), anf_preserves_scoped (scope "
+         "closedness independently of types); lift_preserves_closed / lift_preserves_scoped (every emitted function, generated apply "
+         "functions included, mentions only its parameters, globals and apply-function names; typing only for the closure-free part, "
+         "lift_preserves_wt_partial, because of the known closure-struct-vs-function-type finding); mono_preserves_wt_partial / "
+         "mono_phase1_preserves_wtProg_partial (instance bodies are substitution instances up to callee names; phase 2 only without type "
+         "applications); matchc_preserves_closed / compileMatch_closed / compileLet_closed (every pattern variable used in an arm body is "
+         "bound on every path of the decision tree). Every side condition is a decidable predicate (inAnfFragment, presHypArity, "
+         "sigClosedB, Mono.presHypProg, Match.presHypRows/presHypNames) that gomlmodel c03pres / c03presmatch evaluates on the REAL "
+         "Core/Mono/Lift/ANF dumps of every program and on every real match site, together with the conclusion on the model's output "
+         "and the same judgement on the real output (evidence: pass_preservation).",
+    design_ref="§5 C03, §C03 — as built, §C03 pass preservation — as built (round 10), Seeded C03-dot-method-call-arity-unchecked (round 10)",
     note="Proved: the theorems above about Wt / the mono model. Validated only: that the real stage dumps satisfy the judgement (oracle on "
          "every accepted program of the run, not a theorem about the typer), that ill-typed programs are rejected (sampled by injection). "
-         "Not done: matchc/anf/lift preservation theorems and soundness of Sem w.r.t. wt; the typer's inference (3 300 lines) is not "
-         "modelled. Trusted: Lean kernel, our reading of type consistency in Wt.errs, harness dumps of the environments, the generator's "
+         "Not done: typing preservation for closures through lift (known finding), for mono phase 2 with type applications and for "
+         "the match compiler; soundness of Sem w.r.t. wt; the typer's inference (3 300 lines) is not "
+         "modelled. The preservation theorems are about the pass MODELS under decidable hypotheses that are validated (not proved) to hold "
+         "on the real programs of each run. Trusted: Lean kernel, our reading of type consistency in Wt.errs, harness dumps of the environments, the generator's "
          "own typing. Fixed: a value coerced to dyn Trait twice inside a call argument. Known findings: after lambda lifting closures are "
          "structs while the positions they flow through keep function types (Lift/ANF not type-consistent); phantom type parameters "
          "survive mono (shared with C07).",
